@@ -39,11 +39,11 @@ def R_ts_vsum (g : Gen.ts_vsum.St) (m : Mom) : Prop := g.sum = m.s1 ∧ g.n = m.
 theorem ts_vsum_add (w mp : Nat) (g : Gen.ts_vsum.St) (m : Mom) (v : Option Rat) (h : R_ts_vsum g m) :
     R_ts_vsum (Gen.ts_vsum.add w g v) ((momRoll (emitSum mp)).add m v) := by
   obtain ⟨h0, h1⟩ := h
-  cases v <;> simp [Gen.ts_vsum.add, momRoll, Mom.add, Mom.remove, R_ts_vsum, h0, h1]
+  cases v <;> simp [Gen.ts_vsum.add, momRoll, Mom.add, Mom.remove, R_ts_vsum, h0, h1, pow_two, pow_succ] <;> try ring
 theorem ts_vsum_post (w mp : Nat) (g : Gen.ts_vsum.St) (m : Mom) (x : Option Rat) (h : R_ts_vsum g m) :
     R_ts_vsum (Gen.ts_vsum.post w g (some x)) ((momRoll (emitSum mp)).remove m x) := by
   obtain ⟨h0, h1⟩ := h
-  cases x <;> simp [Gen.ts_vsum.post, momRoll, Mom.add, Mom.remove, R_ts_vsum, h0, h1]
+  cases x <;> simp [Gen.ts_vsum.post, momRoll, Mom.add, Mom.remove, R_ts_vsum, h0, h1, pow_two, pow_succ] <;> try ring
 theorem ts_vsum_emit (sqrt : Rat → Rat) (w mp : Nat) (g : Gen.ts_vsum.St) (m : Mom) (v : Option Rat) (h : R_ts_vsum g m) :
     Agree sqrt (Gen.ts_vsum.emit sqrt w mp g v) ((momRoll (emitSum mp)).emit m) := by
   obtain ⟨h0, h1⟩ := h
@@ -93,11 +93,11 @@ def R_ts_vmean (g : Gen.ts_vmean.St) (m : Mom) : Prop := g.sum = m.s1 ∧ g.n = 
 theorem ts_vmean_add (w mp : Nat) (g : Gen.ts_vmean.St) (m : Mom) (v : Option Rat) (h : R_ts_vmean g m) :
     R_ts_vmean (Gen.ts_vmean.add w g v) ((momRoll (emitMean mp)).add m v) := by
   obtain ⟨h0, h1⟩ := h
-  cases v <;> simp [Gen.ts_vmean.add, momRoll, Mom.add, Mom.remove, R_ts_vmean, h0, h1]
+  cases v <;> simp [Gen.ts_vmean.add, momRoll, Mom.add, Mom.remove, R_ts_vmean, h0, h1, pow_two, pow_succ] <;> try ring
 theorem ts_vmean_post (w mp : Nat) (g : Gen.ts_vmean.St) (m : Mom) (x : Option Rat) (h : R_ts_vmean g m) :
     R_ts_vmean (Gen.ts_vmean.post w g (some x)) ((momRoll (emitMean mp)).remove m x) := by
   obtain ⟨h0, h1⟩ := h
-  cases x <;> simp [Gen.ts_vmean.post, momRoll, Mom.add, Mom.remove, R_ts_vmean, h0, h1]
+  cases x <;> simp [Gen.ts_vmean.post, momRoll, Mom.add, Mom.remove, R_ts_vmean, h0, h1, pow_two, pow_succ] <;> try ring
 theorem ts_vmean_emit (sqrt : Rat → Rat) (w mp : Nat) (g : Gen.ts_vmean.St) (m : Mom) (v : Option Rat) (h : R_ts_vmean g m) :
     Agree sqrt (Gen.ts_vmean.emit sqrt w mp g v) ((momRoll (emitMean mp)).emit m) := by
   obtain ⟨h0, h1⟩ := h
@@ -148,11 +148,11 @@ def R_ts_vstd (g : Gen.ts_vstd.St) (m : Mom) : Prop := g.sum = m.s1 ∧ g.sum2 =
 theorem ts_vstd_add (w mp : Nat) (g : Gen.ts_vstd.St) (m : Mom) (v : Option Rat) (h : R_ts_vstd g m) :
     R_ts_vstd (Gen.ts_vstd.add w g v) ((momRoll (emitStd mp)).add m v) := by
   obtain ⟨h0, h1, h2⟩ := h
-  cases v <;> simp [Gen.ts_vstd.add, momRoll, Mom.add, Mom.remove, R_ts_vstd, h0, h1, h2]
+  cases v <;> simp [Gen.ts_vstd.add, momRoll, Mom.add, Mom.remove, R_ts_vstd, h0, h1, h2, pow_two, pow_succ] <;> try ring
 theorem ts_vstd_post (w mp : Nat) (g : Gen.ts_vstd.St) (m : Mom) (x : Option Rat) (h : R_ts_vstd g m) :
     R_ts_vstd (Gen.ts_vstd.post w g (some x)) ((momRoll (emitStd mp)).remove m x) := by
   obtain ⟨h0, h1, h2⟩ := h
-  cases x <;> simp [Gen.ts_vstd.post, momRoll, Mom.add, Mom.remove, R_ts_vstd, h0, h1, h2]
+  cases x <;> simp [Gen.ts_vstd.post, momRoll, Mom.add, Mom.remove, R_ts_vstd, h0, h1, h2, pow_two, pow_succ] <;> try ring
 theorem ts_vstd_emit (sqrt : Rat → Rat) (w mp : Nat) (g : Gen.ts_vstd.St) (m : Mom) (v : Option Rat) (h : R_ts_vstd g m) :
     Agree sqrt (Gen.ts_vstd.emit sqrt w mp g v) ((momRoll (emitStd mp)).emit m) := by
   obtain ⟨h0, h1, h2⟩ := h
@@ -206,11 +206,11 @@ def R_ts_vvar (g : Gen.ts_vvar.St) (m : Mom) : Prop := g.sum = m.s1 ∧ g.sum2 =
 theorem ts_vvar_add (w mp : Nat) (g : Gen.ts_vvar.St) (m : Mom) (v : Option Rat) (h : R_ts_vvar g m) :
     R_ts_vvar (Gen.ts_vvar.add w g v) ((momRoll (emitVar mp)).add m v) := by
   obtain ⟨h0, h1, h2⟩ := h
-  cases v <;> simp [Gen.ts_vvar.add, momRoll, Mom.add, Mom.remove, R_ts_vvar, h0, h1, h2]
+  cases v <;> simp [Gen.ts_vvar.add, momRoll, Mom.add, Mom.remove, R_ts_vvar, h0, h1, h2, pow_two, pow_succ] <;> try ring
 theorem ts_vvar_post (w mp : Nat) (g : Gen.ts_vvar.St) (m : Mom) (x : Option Rat) (h : R_ts_vvar g m) :
     R_ts_vvar (Gen.ts_vvar.post w g (some x)) ((momRoll (emitVar mp)).remove m x) := by
   obtain ⟨h0, h1, h2⟩ := h
-  cases x <;> simp [Gen.ts_vvar.post, momRoll, Mom.add, Mom.remove, R_ts_vvar, h0, h1, h2]
+  cases x <;> simp [Gen.ts_vvar.post, momRoll, Mom.add, Mom.remove, R_ts_vvar, h0, h1, h2, pow_two, pow_succ] <;> try ring
 theorem ts_vvar_emit (sqrt : Rat → Rat) (w mp : Nat) (g : Gen.ts_vvar.St) (m : Mom) (v : Option Rat) (h : R_ts_vvar g m) :
     Agree sqrt (Gen.ts_vvar.emit sqrt w mp g v) ((momRoll (emitVar mp)).emit m) := by
   obtain ⟨h0, h1, h2⟩ := h
@@ -265,11 +265,11 @@ def R_ts_vskew (g : Gen.ts_vskew.St) (m : Mom) : Prop := g.sum = m.s1 ∧ g.sum2
 theorem ts_vskew_add (w mp : Nat) (g : Gen.ts_vskew.St) (m : Mom) (v : Option Rat) (h : R_ts_vskew g m) :
     R_ts_vskew (Gen.ts_vskew.add w g v) ((momRoll (emitSkew mp)).add m v) := by
   obtain ⟨h0, h1, h2, h3⟩ := h
-  cases v <;> simp [Gen.ts_vskew.add, momRoll, Mom.add, Mom.remove, R_ts_vskew, h0, h1, h2, h3]
+  cases v <;> simp [Gen.ts_vskew.add, momRoll, Mom.add, Mom.remove, R_ts_vskew, h0, h1, h2, h3, pow_two, pow_succ] <;> try ring
 theorem ts_vskew_post (w mp : Nat) (g : Gen.ts_vskew.St) (m : Mom) (x : Option Rat) (h : R_ts_vskew g m) :
     R_ts_vskew (Gen.ts_vskew.post w g (some x)) ((momRoll (emitSkew mp)).remove m x) := by
   obtain ⟨h0, h1, h2, h3⟩ := h
-  cases x <;> simp [Gen.ts_vskew.post, momRoll, Mom.add, Mom.remove, R_ts_vskew, h0, h1, h2, h3]
+  cases x <;> simp [Gen.ts_vskew.post, momRoll, Mom.add, Mom.remove, R_ts_vskew, h0, h1, h2, h3, pow_two, pow_succ] <;> try ring
 theorem ts_vskew_emit (sqrt : Rat → Rat) (w mp : Nat) (g : Gen.ts_vskew.St) (m : Mom) (v : Option Rat) (h : R_ts_vskew g m) :
     AgreeW (Gen.ts_vskew.emit sqrt w mp g v) ((momRoll (emitSkew mp)).emit m) := by
   obtain ⟨h0, h1, h2, h3⟩ := h
@@ -325,11 +325,11 @@ def R_ts_vkurt (g : Gen.ts_vkurt.St) (m : Mom) : Prop := g.sum = m.s1 ∧ g.sum2
 theorem ts_vkurt_add (w mp : Nat) (g : Gen.ts_vkurt.St) (m : Mom) (v : Option Rat) (h : R_ts_vkurt g m) :
     R_ts_vkurt (Gen.ts_vkurt.add w g v) ((momRoll (emitKurt mp)).add m v) := by
   obtain ⟨h0, h1, h2, h3, h4⟩ := h
-  cases v <;> simp [Gen.ts_vkurt.add, momRoll, Mom.add, Mom.remove, R_ts_vkurt, h0, h1, h2, h3, h4] <;> ring
+  cases v <;> simp [Gen.ts_vkurt.add, momRoll, Mom.add, Mom.remove, R_ts_vkurt, h0, h1, h2, h3, h4, pow_two, pow_succ] <;> try ring
 theorem ts_vkurt_post (w mp : Nat) (g : Gen.ts_vkurt.St) (m : Mom) (x : Option Rat) (h : R_ts_vkurt g m) :
     R_ts_vkurt (Gen.ts_vkurt.post w g (some x)) ((momRoll (emitKurt mp)).remove m x) := by
   obtain ⟨h0, h1, h2, h3, h4⟩ := h
-  cases x <;> simp [Gen.ts_vkurt.post, momRoll, Mom.add, Mom.remove, R_ts_vkurt, h0, h1, h2, h3, h4] <;> ring
+  cases x <;> simp [Gen.ts_vkurt.post, momRoll, Mom.add, Mom.remove, R_ts_vkurt, h0, h1, h2, h3, h4, pow_two, pow_succ] <;> try ring
 theorem ts_vkurt_emit (sqrt : Rat → Rat) (w mp : Nat) (g : Gen.ts_vkurt.St) (m : Mom) (v : Option Rat) (h : R_ts_vkurt g m) :
     Agree sqrt (Gen.ts_vkurt.emit sqrt w mp g v) ((momRoll (emitKurt mp)).emit m) := by
   obtain ⟨h0, h1, h2, h3, h4⟩ := h
@@ -409,11 +409,11 @@ def R_ts_vewm (g : Gen.ts_vewm.St) (m : Ewm) : Prop := g.n = m.n ∧ g.q_x = m.q
 theorem ts_vewm_add (w mp : Nat) (g : Gen.ts_vewm.St) (m : Ewm) (v : Option Rat) (h : R_ts_vewm g m) :
     R_ts_vewm (Gen.ts_vewm.add w g v) ((ewmRoll w mp).add m v) := by
   obtain ⟨h0, h1⟩ := h
-  cases v <;> simp [Gen.ts_vewm.add, ewmRoll, R_ts_vewm, h0, h1]
+  cases v <;> simp [Gen.ts_vewm.add, ewmRoll, R_ts_vewm, h0, h1, pow_two, pow_succ] <;> try ring
 theorem ts_vewm_post (w mp : Nat) (g : Gen.ts_vewm.St) (m : Ewm) (x : Option Rat) (h : R_ts_vewm g m) :
     R_ts_vewm (Gen.ts_vewm.post w g (some x)) ((ewmRoll w mp).remove m x) := by
   obtain ⟨h0, h1⟩ := h
-  cases x <;> simp [Gen.ts_vewm.post, ewmRoll, R_ts_vewm, h0, h1]
+  cases x <;> simp [Gen.ts_vewm.post, ewmRoll, R_ts_vewm, h0, h1, pow_two, pow_succ] <;> try ring
 theorem ts_vewm_emit (sqrt : Rat → Rat) (w mp : Nat) (g : Gen.ts_vewm.St) (m : Ewm) (v : Option Rat) (h : R_ts_vewm g m) :
     Agree sqrt (Gen.ts_vewm.emit sqrt w mp g v) ((ewmRoll w mp).emit m) := by
   obtain ⟨h0, h1⟩ := h
@@ -464,11 +464,11 @@ def R_ts_vwma (g : Gen.ts_vwma.St) (m : Wma) : Prop := g.n = m.n ∧ g.sum = m.s
 theorem ts_vwma_add (w mp : Nat) (g : Gen.ts_vwma.St) (m : Wma) (v : Option Rat) (h : R_ts_vwma g m) :
     R_ts_vwma (Gen.ts_vwma.add w g v) ((wmaRoll mp).add m v) := by
   obtain ⟨h0, h1, h2⟩ := h
-  cases v <;> simp [Gen.ts_vwma.add, wmaRoll, R_ts_vwma, h0, h1, h2]
+  cases v <;> simp [Gen.ts_vwma.add, wmaRoll, R_ts_vwma, h0, h1, h2, pow_two, pow_succ] <;> try ring
 theorem ts_vwma_post (w mp : Nat) (g : Gen.ts_vwma.St) (m : Wma) (x : Option Rat) (h : R_ts_vwma g m) :
     R_ts_vwma (Gen.ts_vwma.post w g (some x)) ((wmaRoll mp).remove m x) := by
   obtain ⟨h0, h1, h2⟩ := h
-  cases x <;> simp [Gen.ts_vwma.post, wmaRoll, R_ts_vwma, h0, h1, h2]
+  cases x <;> simp [Gen.ts_vwma.post, wmaRoll, R_ts_vwma, h0, h1, h2, pow_two, pow_succ] <;> try ring
 theorem ts_vwma_emit (sqrt : Rat → Rat) (w mp : Nat) (g : Gen.ts_vwma.St) (m : Wma) (v : Option Rat) (h : R_ts_vwma g m) :
     Agree sqrt (Gen.ts_vwma.emit sqrt w mp g v) ((wmaRoll mp).emit m) := by
   obtain ⟨h0, h1, h2⟩ := h
@@ -519,11 +519,11 @@ def R_ts_sum (g : Gen.ts_sum.St) (m : Mom) : Prop := g.sum = m.s1 ∧ g.n = m.n
 theorem ts_sum_add (w mp : Nat) (g : Gen.ts_sum.St) (m : Mom) (v : Rat) (h : R_ts_sum g m) :
     R_ts_sum (Gen.ts_sum.add w g v) ((momRoll (emitSum mp)).add m (some v)) := by
   obtain ⟨h0, h1⟩ := h
-  simp [Gen.ts_sum.add, momRoll, Mom.add, Mom.remove, R_ts_sum, h0, h1]
+  simp [Gen.ts_sum.add, momRoll, Mom.add, Mom.remove, R_ts_sum, h0, h1, pow_two, pow_succ] <;> try ring
 theorem ts_sum_post (w mp : Nat) (g : Gen.ts_sum.St) (m : Mom) (x : Rat) (h : R_ts_sum g m) :
     R_ts_sum (Gen.ts_sum.post w g (some x)) ((momRoll (emitSum mp)).remove m (some x)) := by
   obtain ⟨h0, h1⟩ := h
-  simp [Gen.ts_sum.post, momRoll, Mom.add, Mom.remove, R_ts_sum, h0, h1]
+  simp [Gen.ts_sum.post, momRoll, Mom.add, Mom.remove, R_ts_sum, h0, h1, pow_two, pow_succ] <;> try ring
 theorem ts_sum_emit (sqrt : Rat → Rat) (w mp : Nat) (g : Gen.ts_sum.St) (m : Mom) (v : Rat) (h : R_ts_sum g m) :
     Agree sqrt (Gen.ts_sum.emit sqrt w mp g v) ((momRoll (emitSum mp)).emit m) := by
   obtain ⟨h0, h1⟩ := h
@@ -573,11 +573,11 @@ def R_ts_mean (g : Gen.ts_mean.St) (m : Mom) : Prop := g.sum = m.s1 ∧ g.n = m.
 theorem ts_mean_add (w mp : Nat) (g : Gen.ts_mean.St) (m : Mom) (v : Rat) (h : R_ts_mean g m) :
     R_ts_mean (Gen.ts_mean.add w g v) ((momRoll (emitMean mp)).add m (some v)) := by
   obtain ⟨h0, h1⟩ := h
-  simp [Gen.ts_mean.add, momRoll, Mom.add, Mom.remove, R_ts_mean, h0, h1]
+  simp [Gen.ts_mean.add, momRoll, Mom.add, Mom.remove, R_ts_mean, h0, h1, pow_two, pow_succ] <;> try ring
 theorem ts_mean_post (w mp : Nat) (g : Gen.ts_mean.St) (m : Mom) (x : Rat) (h : R_ts_mean g m) :
     R_ts_mean (Gen.ts_mean.post w g (some x)) ((momRoll (emitMean mp)).remove m (some x)) := by
   obtain ⟨h0, h1⟩ := h
-  simp [Gen.ts_mean.post, momRoll, Mom.add, Mom.remove, R_ts_mean, h0, h1]
+  simp [Gen.ts_mean.post, momRoll, Mom.add, Mom.remove, R_ts_mean, h0, h1, pow_two, pow_succ] <;> try ring
 theorem ts_mean_emit (sqrt : Rat → Rat) (w mp : Nat) (g : Gen.ts_mean.St) (m : Mom) (v : Rat) (h : R_ts_mean g m) :
     Agree sqrt (Gen.ts_mean.emit sqrt w mp g v) ((momRoll (emitMean mp)).emit m) := by
   obtain ⟨h0, h1⟩ := h
@@ -628,11 +628,11 @@ def R_ts_std (g : Gen.ts_std.St) (m : Mom) : Prop := g.sum = m.s1 ∧ g.sum2 = m
 theorem ts_std_add (w mp : Nat) (g : Gen.ts_std.St) (m : Mom) (v : Rat) (h : R_ts_std g m) :
     R_ts_std (Gen.ts_std.add w g v) ((momRoll (emitStd mp)).add m (some v)) := by
   obtain ⟨h0, h1, h2⟩ := h
-  simp [Gen.ts_std.add, momRoll, Mom.add, Mom.remove, R_ts_std, h0, h1, h2]
+  simp [Gen.ts_std.add, momRoll, Mom.add, Mom.remove, R_ts_std, h0, h1, h2, pow_two, pow_succ] <;> try ring
 theorem ts_std_post (w mp : Nat) (g : Gen.ts_std.St) (m : Mom) (x : Rat) (h : R_ts_std g m) :
     R_ts_std (Gen.ts_std.post w g (some x)) ((momRoll (emitStd mp)).remove m (some x)) := by
   obtain ⟨h0, h1, h2⟩ := h
-  simp [Gen.ts_std.post, momRoll, Mom.add, Mom.remove, R_ts_std, h0, h1, h2]
+  simp [Gen.ts_std.post, momRoll, Mom.add, Mom.remove, R_ts_std, h0, h1, h2, pow_two, pow_succ] <;> try ring
 theorem ts_std_emit (sqrt : Rat → Rat) (w mp : Nat) (g : Gen.ts_std.St) (m : Mom) (v : Rat) (h : R_ts_std g m) :
     Agree sqrt (Gen.ts_std.emit sqrt w mp g v) ((momRoll (emitStd mp)).emit m) := by
   obtain ⟨h0, h1, h2⟩ := h
@@ -686,11 +686,11 @@ def R_ts_var (g : Gen.ts_var.St) (m : Mom) : Prop := g.sum = m.s1 ∧ g.sum2 = m
 theorem ts_var_add (w mp : Nat) (g : Gen.ts_var.St) (m : Mom) (v : Rat) (h : R_ts_var g m) :
     R_ts_var (Gen.ts_var.add w g v) ((momRoll (emitVar mp)).add m (some v)) := by
   obtain ⟨h0, h1, h2⟩ := h
-  simp [Gen.ts_var.add, momRoll, Mom.add, Mom.remove, R_ts_var, h0, h1, h2]
+  simp [Gen.ts_var.add, momRoll, Mom.add, Mom.remove, R_ts_var, h0, h1, h2, pow_two, pow_succ] <;> try ring
 theorem ts_var_post (w mp : Nat) (g : Gen.ts_var.St) (m : Mom) (x : Rat) (h : R_ts_var g m) :
     R_ts_var (Gen.ts_var.post w g (some x)) ((momRoll (emitVar mp)).remove m (some x)) := by
   obtain ⟨h0, h1, h2⟩ := h
-  simp [Gen.ts_var.post, momRoll, Mom.add, Mom.remove, R_ts_var, h0, h1, h2]
+  simp [Gen.ts_var.post, momRoll, Mom.add, Mom.remove, R_ts_var, h0, h1, h2, pow_two, pow_succ] <;> try ring
 theorem ts_var_emit (sqrt : Rat → Rat) (w mp : Nat) (g : Gen.ts_var.St) (m : Mom) (v : Rat) (h : R_ts_var g m) :
     Agree sqrt (Gen.ts_var.emit sqrt w mp g v) ((momRoll (emitVar mp)).emit m) := by
   obtain ⟨h0, h1, h2⟩ := h
@@ -745,11 +745,11 @@ def R_ts_skew (g : Gen.ts_skew.St) (m : Mom) : Prop := g.sum = m.s1 ∧ g.sum2 =
 theorem ts_skew_add (w mp : Nat) (g : Gen.ts_skew.St) (m : Mom) (v : Rat) (h : R_ts_skew g m) :
     R_ts_skew (Gen.ts_skew.add w g v) ((momRoll (emitSkew mp)).add m (some v)) := by
   obtain ⟨h0, h1, h2, h3⟩ := h
-  simp [Gen.ts_skew.add, momRoll, Mom.add, Mom.remove, R_ts_skew, h0, h1, h2, h3]
+  simp [Gen.ts_skew.add, momRoll, Mom.add, Mom.remove, R_ts_skew, h0, h1, h2, h3, pow_two, pow_succ] <;> try ring
 theorem ts_skew_post (w mp : Nat) (g : Gen.ts_skew.St) (m : Mom) (x : Rat) (h : R_ts_skew g m) :
     R_ts_skew (Gen.ts_skew.post w g (some x)) ((momRoll (emitSkew mp)).remove m (some x)) := by
   obtain ⟨h0, h1, h2, h3⟩ := h
-  simp [Gen.ts_skew.post, momRoll, Mom.add, Mom.remove, R_ts_skew, h0, h1, h2, h3]
+  simp [Gen.ts_skew.post, momRoll, Mom.add, Mom.remove, R_ts_skew, h0, h1, h2, h3, pow_two, pow_succ] <;> try ring
 theorem ts_skew_emit (sqrt : Rat → Rat) (w mp : Nat) (g : Gen.ts_skew.St) (m : Mom) (v : Rat) (h : R_ts_skew g m) :
     AgreeW (Gen.ts_skew.emit sqrt w mp g v) ((momRoll (emitSkew mp)).emit m) := by
   obtain ⟨h0, h1, h2, h3⟩ := h
@@ -805,11 +805,11 @@ def R_ts_kurt (g : Gen.ts_kurt.St) (m : Mom) : Prop := g.sum = m.s1 ∧ g.sum2 =
 theorem ts_kurt_add (w mp : Nat) (g : Gen.ts_kurt.St) (m : Mom) (v : Rat) (h : R_ts_kurt g m) :
     R_ts_kurt (Gen.ts_kurt.add w g v) ((momRoll (emitKurt mp)).add m (some v)) := by
   obtain ⟨h0, h1, h2, h3, h4⟩ := h
-  simp [Gen.ts_kurt.add, momRoll, Mom.add, Mom.remove, R_ts_kurt, h0, h1, h2, h3, h4] <;> ring
+  simp [Gen.ts_kurt.add, momRoll, Mom.add, Mom.remove, R_ts_kurt, h0, h1, h2, h3, h4, pow_two, pow_succ] <;> try ring
 theorem ts_kurt_post (w mp : Nat) (g : Gen.ts_kurt.St) (m : Mom) (x : Rat) (h : R_ts_kurt g m) :
     R_ts_kurt (Gen.ts_kurt.post w g (some x)) ((momRoll (emitKurt mp)).remove m (some x)) := by
   obtain ⟨h0, h1, h2, h3, h4⟩ := h
-  simp [Gen.ts_kurt.post, momRoll, Mom.add, Mom.remove, R_ts_kurt, h0, h1, h2, h3, h4] <;> ring
+  simp [Gen.ts_kurt.post, momRoll, Mom.add, Mom.remove, R_ts_kurt, h0, h1, h2, h3, h4, pow_two, pow_succ] <;> try ring
 theorem ts_kurt_emit (sqrt : Rat → Rat) (w mp : Nat) (g : Gen.ts_kurt.St) (m : Mom) (v : Rat) (h : R_ts_kurt g m) :
     Agree sqrt (Gen.ts_kurt.emit sqrt w mp g v) ((momRoll (emitKurt mp)).emit m) := by
   obtain ⟨h0, h1, h2, h3, h4⟩ := h
@@ -889,11 +889,11 @@ def R_ts_ewm (g : Gen.ts_ewm.St) (m : Ewm) : Prop := g.n = m.n ∧ g.q_x = m.qx
 theorem ts_ewm_add (w mp : Nat) (g : Gen.ts_ewm.St) (m : Ewm) (v : Rat) (h : R_ts_ewm g m) :
     R_ts_ewm (Gen.ts_ewm.add w g v) ((ewmRoll w mp).add m (some v)) := by
   obtain ⟨h0, h1⟩ := h
-  simp [Gen.ts_ewm.add, ewmRoll, R_ts_ewm, h0, h1]
+  simp [Gen.ts_ewm.add, ewmRoll, R_ts_ewm, h0, h1, pow_two, pow_succ] <;> try ring
 theorem ts_ewm_post (w mp : Nat) (g : Gen.ts_ewm.St) (m : Ewm) (x : Rat) (h : R_ts_ewm g m) :
     R_ts_ewm (Gen.ts_ewm.post w g (some x)) ((ewmRoll w mp).remove m (some x)) := by
   obtain ⟨h0, h1⟩ := h
-  simp [Gen.ts_ewm.post, ewmRoll, R_ts_ewm, h0, h1]
+  simp [Gen.ts_ewm.post, ewmRoll, R_ts_ewm, h0, h1, pow_two, pow_succ] <;> try ring
 theorem ts_ewm_emit (sqrt : Rat → Rat) (w mp : Nat) (g : Gen.ts_ewm.St) (m : Ewm) (v : Rat) (h : R_ts_ewm g m) :
     Agree sqrt (Gen.ts_ewm.emit sqrt w mp g v) ((ewmRoll w mp).emit m) := by
   obtain ⟨h0, h1⟩ := h
@@ -944,11 +944,11 @@ def R_ts_wma (g : Gen.ts_wma.St) (m : Wma) : Prop := g.n = m.n ∧ g.sum = m.sum
 theorem ts_wma_add (w mp : Nat) (g : Gen.ts_wma.St) (m : Wma) (v : Rat) (h : R_ts_wma g m) :
     R_ts_wma (Gen.ts_wma.add w g v) ((wmaRoll mp).add m (some v)) := by
   obtain ⟨h0, h1, h2⟩ := h
-  simp [Gen.ts_wma.add, wmaRoll, R_ts_wma, h0, h1, h2]
+  simp [Gen.ts_wma.add, wmaRoll, R_ts_wma, h0, h1, h2, pow_two, pow_succ] <;> try ring
 theorem ts_wma_post (w mp : Nat) (g : Gen.ts_wma.St) (m : Wma) (x : Rat) (h : R_ts_wma g m) :
     R_ts_wma (Gen.ts_wma.post w g (some x)) ((wmaRoll mp).remove m (some x)) := by
   obtain ⟨h0, h1, h2⟩ := h
-  simp [Gen.ts_wma.post, wmaRoll, R_ts_wma, h0, h1, h2]
+  simp [Gen.ts_wma.post, wmaRoll, R_ts_wma, h0, h1, h2, pow_two, pow_succ] <;> try ring
 theorem ts_wma_emit (sqrt : Rat → Rat) (w mp : Nat) (g : Gen.ts_wma.St) (m : Wma) (v : Rat) (h : R_ts_wma g m) :
     Agree sqrt (Gen.ts_wma.emit sqrt w mp g v) ((wmaRoll mp).emit m) := by
   obtain ⟨h0, h1, h2⟩ := h
